@@ -18,6 +18,8 @@ ProfileFn findProfile(const std::string& name) {
 bool synthInitial(const json& spec, NifFile& nif, Ctx& ctx, std::string* fileBytes);    // gen.cpp
 bool builderInitial(const json& spec, NifFile& nif, Ctx& ctx);  // builders.cpp
 
+bool attachBelowShape(NifFile& nif, NiShape* shape, const std::string& type, uint64_t seed, Ctx& ctx); // gen.cpp
+
 static bool makeInitial0(const json& src, NifFile& nif, Ctx& ctx, std::string* fileBytes) {
 	if (src.contains("sample")) {
 		auto it = samples().find(src["sample"].get<std::string>());
@@ -32,6 +34,16 @@ static bool makeInitial0(const json& src, NifFile& nif, Ctx& ctx, std::string* f
 	if (src.contains("synth")) return synthInitial(src["synth"], nif, ctx, fileBytes);
 	if (src.contains("builder")) {
 		if (!builderInitial(src["builder"], nif, ctx)) return false;
+		if (src.contains("attach")) {
+			// populated blocks of arbitrary registered types hung below a shape (type-fitting, via carrier blocks if needed)
+			auto& types = allBlockTypes();
+			for (auto& a : src["attach"]) {
+				auto shapes = nif.GetShapes();
+				if (shapes.empty()) return false;
+				std::string t = a.contains("type") && a["type"].is_string() ? a["type"].get<std::string>() : types[ju64(a, "type_index", 0) % types.size()];
+				if (!attachBelowShape(nif, shapes[ju64(a, "shape", 0) % shapes.size()], t, ju64(a, "seed", 1), ctx) && jbool(a, "required", true)) return false;
+			}
+		}
 		if (jbool(src, "settle", false)) {
 			// bring the constructed model into its stored normal form (what a file would hold): save, forget, load
 			SaveOut so = saveNif(nif, SaveSpec());
